@@ -95,7 +95,7 @@ class SymMode(TorchDispatchMode):
         ins = list(tensors_in(args)) + list(tensors_in(kwargs))
         if not any(SH.has(t) for t in ins):
             return func(*args, **kwargs)
-        if not any(SH.has(t) and (t.is_floating_point() or not _concrete_shadow(t)) for t in ins):
+        if not any(SH.has(t) and (t.is_floating_point() or t.layout != torch.strided or not _concrete_shadow(t)) for t in ins):
             # only masks / index tensors whose shadows hold concrete values: nothing symbolic flows through this op
             mut = any(a.alias_info is not None and a.alias_info.is_write for a in func._schema.arguments)
             if not mut:
@@ -115,9 +115,13 @@ class SymMode(TorchDispatchMode):
             raise Unsupported("no handler for mutating op %s at %s" % (name, where_am_i()))
         out = func(*args, **kwargs)
         outs = list(tensors_in(out))
-        inptrs = {t.untyped_storage().data_ptr() for t in ins if t.numel() and t.layout == torch.strided}
-        if all((o.numel() == 0) or (o.layout == torch.strided and o.untyped_storage().data_ptr() in inptrs) for o in outs):
-            return out  # pure view: shares the (shadowed) storage
+        def _ptr(t):
+            if t.layout == torch.sparse_coo:
+                t = t._values()
+            return t.untyped_storage().data_ptr() if t.layout == torch.strided and t.numel() else None
+        inptrs = {_ptr(t) for t in ins} - {None}
+        if all((o.numel() == 0) or (_ptr(o) in inptrs) for o in outs):
+            return out  # pure view (or a sparse COO wrapper around shadowed values): shares the shadowed storage
         raise Unsupported("no handler for op %s at %s" % (name, where_am_i()))
 
 
